@@ -12,9 +12,11 @@
     `-?(0|[1-9][0-9]*)`, strings in strict mode (no raw control characters, the eight simple escapes, `\uXXXX` with an escaped
     surrogate PAIR joined into one astral code point), arrays, objects (a later duplicate key replaces the value at the
     position of the first), "Extra data" rejected, a leading U+FEFF rejected.
-  * Outside the model: floats.  The parser answers `float` as soon as it meets float syntax (`.`/`e`/`E` after an
-    integer, `NaN`, `Infinity`, `-Infinity`); the correspondence check skips those inputs.  CPython's limits (recursion depth
-    of the scanner, 4300-digit limit of `int`↔`str`) are not modelled either.
+  * Floats travel as their TEXT (`FT`: sign, integer part, fraction digits, exponent): `render` writes the text `float.__repr__`
+    produced, `parse` returns the text it scanned (grammar `-?(0|[1-9][0-9]*)(\.[0-9]+)?([eE][-+]?[0-9]+)?`, a fraction or an
+    exponent making it a float).  What stays outside is `float(repr(x)) == x` itself (a CPython guarantee) and the three
+    non-finite literals (`NaN`, `Infinity`, `-Infinity`: the parser answers `float`, the correspondence check skips them).
+    CPython's limits (recursion depth of the scanner, 4300-digit limit of `int`↔`str`) are not modelled either.
 
   Strings are lists of code points (`Nat`), lone surrogates allowed — as in a Python `str`.
 -/
@@ -22,11 +24,21 @@ namespace Uberjob.Json
 
 abbrev Str := List Nat
 
+/-- a float as the text that denotes it: `neg`, integer part, the digits after the point (`[]`: no fraction), the exponent
+    (`e`/`E`, optional sign character, digits) -/
+structure FT where
+  neg : Bool
+  ip : Nat
+  frac : List Nat
+  expo : Option (Nat × Option Nat × List Nat)
+deriving DecidableEq, Repr
+
 mutual
 inductive JV where
   | null
   | bool (b : Bool)
   | int (n : Int)
+  | float (f : FT)
   | str (s : Str)
   | arr (xs : JVs)
   | obj (ms : JMs)
@@ -69,6 +81,14 @@ decreasing_by omega
 
 def encInt (n : Int) : Str := if n < 0 then 45 :: natDigits n.natAbs else natDigits n.toNat
 
+def expText : Option (Nat × Option Nat × List Nat) → Str
+  | none => []
+  | some (e, sg, ds) => e :: (sg.toList ++ ds)
+
+/-- the text of a float (`float.__repr__` produces such a text; so does every float literal of a JSON document) -/
+def FT.text (f : FT) : Str :=
+  (if f.neg then [45] else []) ++ (natDigits f.ip ++ ((if f.frac = [] then [] else 46 :: f.frac) ++ expText f.expo))
+
 /-- where json.dump puts white space: after an opening / before a closing bracket at nesting level `lvl` (`gap`), and after
     the comma between two items (`sgap`) -/
 inductive Layout where
@@ -100,6 +120,7 @@ def render (o : Opts) (lvl : Nat) : JV → Str
   | .bool true => [116, 114, 117, 101]
   | .bool false => [102, 97, 108, 115, 101]
   | .int n => encInt n
+  | .float f => f.text
   | .str s => encStr o.ascii s
   | .arr xs =>
     match xs with
@@ -204,6 +225,10 @@ def scanStr (s : Str) : Option (Str × Str) := scanStrF s.length s
 
 def isDigit (c : Nat) : Bool := 48 ≤ c && c ≤ 57
 
+def headIs' (p : Nat → Bool) : Str → Bool
+  | x :: _ => p x
+  | [] => false
+
 def spanDigits : Str → Str × Str
   | [] => ([], [])
   | c :: r => if isDigit c then ((spanDigits r).1.cons c, (spanDigits r).2) else ([], c :: r)
@@ -212,19 +237,40 @@ def digitsVal (ds : Str) : Nat := ds.foldl (fun a d => 10 * a + (d - 48)) 0
 
 def startsWith (p : Str) (s : Str) : Bool := s.take p.length == p
 
-/-- `(0|[1-9][0-9]*)` and then: float syntax? -/
+/-- `(0|[1-9][0-9]*)` -/
 def parseNat : Str → P Nat
   | [] => .error .syntax
   | d :: r =>
-    if d = 48 then
-      match r with
-      | c :: _ => if c = 46 ∨ c = 101 ∨ c = 69 then .error .float else .ok (0, r)
-      | [] => .ok (0, r)
-    else if 49 ≤ d ∧ d ≤ 57 then
-      match (spanDigits r).2 with
-      | c :: r' => if c = 46 ∨ c = 101 ∨ c = 69 then .error .float else .ok (digitsVal (d :: (spanDigits r).1), c :: r')
-      | [] => .ok (digitsVal (d :: (spanDigits r).1), [])
+    if d = 48 then .ok (0, r)
+    else if 49 ≤ d ∧ d ≤ 57 then .ok (digitsVal (d :: (spanDigits r).1), (spanDigits r).2)
     else .error .syntax
+
+/-- `(\.[0-9]+)?` -/
+def scanFrac : Str → List Nat × Str
+  | 46 :: d :: r => if isDigit d then ((spanDigits (d :: r)).1, (spanDigits (d :: r)).2) else ([], 46 :: d :: r)
+  | r => ([], r)
+
+/-- `([eE][-+]?[0-9]+)?` -/
+def scanExp (r : Str) : Option (Nat × Option Nat × List Nat) × Str :=
+  match r with
+  | e :: sg :: r2 =>
+    if e = 101 ∨ e = 69 then
+      if sg = 43 ∨ sg = 45 then
+        (if headIs' isDigit r2 then (some (e, some sg, (spanDigits r2).1), (spanDigits r2).2) else (none, r))
+      else if isDigit sg then (some (e, none, (spanDigits (sg :: r2)).1), (spanDigits (sg :: r2)).2)
+      else (none, r)
+    else (none, r)
+  | _ => (none, r)
+
+/-- a number after its sign: an int, or - with a fraction or an exponent - a float -/
+def parseNumber (neg : Bool) (s : Str) : P JV :=
+  match parseNat s with
+  | .error e => .error e
+  | .ok (n, r) =>
+    match scanFrac r, scanExp (scanFrac r).2 with
+    | (fr, _), (ex, r2) =>
+      if fr = [] ∧ ex = none then .ok (.int (if neg then -(n : Int) else n), r2)
+      else .ok (.float ⟨neg, n, fr, ex⟩, r2)
 
 /-- a later duplicate key replaces the value where the key first stood (a Python dict) -/
 def JMs.upsert : JMs → Str → JV → JMs
@@ -285,13 +331,8 @@ def parseV : Nat → Str → P JV
     else if c = 73 then (if startsWith [110, 102, 105, 110, 105, 116, 121] s then .error .float else .error .syntax)
     else if c = 45 then
       if startsWith [73, 110, 102, 105, 110, 105, 116, 121] s then .error .float
-      else match parseNat s with
-        | .ok (n, r) => .ok (.int (-(n : Int)), r)
-        | .error e => .error e
-    else
-      match parseNat (c :: s) with
-      | .ok (n, r) => .ok (.int n, r)
-      | .error e => .error e
+      else parseNumber true s
+    else parseNumber false (c :: s)
 /-- after an item of an array: `, item` … `]` -/
 def parseTail : Nat → Str → P JVs
   | 0, _ => .error .fuel
@@ -345,8 +386,16 @@ def nodupB : List Str → Bool
   | [] => true
   | k :: ks => !ks.contains k && nodupB ks
 
+/-- a float text: a fraction or an exponent (else it denotes an int), digits where digits belong -/
+def FT.ok (f : FT) : Bool :=
+  (f.frac != [] || f.expo.isSome) && f.frac.all isDigit &&
+  (match f.expo with
+   | none => true
+   | some (e, sg, ds) => (e == 101 || e == 69) && (sg == none || sg == some 43 || sg == some 45) && ds != [] && ds.all isDigit)
+
 mutual
 def JV.ok : JV → Bool
+  | .float f => f.ok
   | .str s => strOK s
   | .arr xs => xs.ok
   | .obj ms => ms.ok && nodupB ms.keys
